@@ -102,7 +102,11 @@ def render(unc, cfg, a, files, obs=()):
     elif a["dest"] == "suffix":
         cmd += ["--suffix", ".SFX"]
     if a["pfile"]:
-        cmd += ["-p", "aux_p.txt"]
+        # -p FILE and --dump-steps PREFIX obey the same rule (single-file modes only)
+        if "ds_for_p" in obs and not a["csv"]:
+            cmd += ["--dump-steps", "aux_ds"]
+        else:
+            cmd += ["-p", "aux_p.txt"]
     if a["csv"]:
         cmd.append("--debug-csv-format")
     for o in obs:
@@ -110,8 +114,6 @@ def render(unc, cfg, a, files, obs=()):
             cmd += ["-L", "1-9,20-30"]
         elif o == "s":
             cmd.append("-s")
-        elif o == "ds":
-            cmd += ["--dump-steps", "aux_ds"]
     stdin = None
     lst = None
     if a["src"] == "stdin":
@@ -214,7 +216,8 @@ def execute(unc, cfg, a, files, d, obs=(), env=None, timeout=60, cwd_sub=None):
         m = re.match(rb"^(PASS|FAIL): (\S+) ", line)
         if m:
             i = names.get(m.group(2).decode("latin-1"), 0)
-            (passes if m.group(1) == b"PASS" else fails).append(i)
+            if i:
+                (passes if m.group(1) == b"PASS" else fails).append(i)
     so = []
     if not a["check"]:
         if out:
